@@ -196,7 +196,7 @@ func genPartition(idx int, a, b uint64, thorough bool) *partSpec {
 		nPre = p.MinFiles + r.IntN(k-2*p.MinFiles+1)
 	}
 	tags := p.tagCols()
-	if (p.MetaMode == "tags" || p.MetaMode == "tags+dedup_time") && len(tags) >= 2 && r.IntN(3) == 0 {
+	if (p.MetaMode == "tags" || p.MetaMode == "tags+dedup_time") && len(tags) >= 2 && r.IntN(2) == 0 {
 		// tag schema evolution: files on one side of the index lack the last tag column altogether
 		p.Evolve = 1 + r.IntN(k-1)
 		p.EvolveDrop = r.IntN(2) == 0
@@ -242,8 +242,31 @@ func genPartition(idx int, a, b uint64, thorough bool) *partSpec {
 		for i := 0; i < n; i++ {
 			pool[h] = append(pool[h], key{tv: newTagVals(), t: dayUS + int64(h)*hourUS + int64(r.IntN(6))*1_000_000 + int64(r.IntN(3))})
 		}
+		// sibling keys: same time and same values in every tag column but the LAST one -
+		// distinct series that a key built from a subset of the tag columns would merge
+		if len(tags) >= 1 && (p.Evolve > 0 || r.IntN(2) == 0) {
+			base := pool[h][r.IntN(len(pool[h]))]
+			last := tags[len(tags)-1]
+			for _, v := range tagDomain {
+				if v == base.tv[last] {
+					continue
+				}
+				sib := map[string]any{}
+				for k2, v2 := range base.tv {
+					sib[k2] = v2
+				}
+				sib[last] = v
+				pool[h] = append(pool[h], key{tv: sib, t: base.t})
+				if r.IntN(2) == 0 {
+					break
+				}
+			}
+		}
 	}
 	dupRate := []float64{0, 0.3, 0.6, 0.9}[r.IntN(4)]
+	if p.Evolve > 0 && dupRate < 0.6 {
+		dupRate = 0.6 // partitions whose files announce different tag lists always hold rows sharing keys
+	}
 	nullRate := []float64{0, 0.15, 0.5}[r.IntN(3)]
 
 	rid := int64(idx)*1_000_000 + 1
